@@ -21,6 +21,15 @@ package ledger
 //@ ghost committedFnRuns int
 //@ ghost lastBalances map[string]map[string]*big.Int
 //@ ghost lastRevertModified bool
+//@ ghost findSchemaCalls int
+//@ ghost findSchemaNotFound bool
+//@ ghost findSchemaFailed bool
+//@ ghost latestCalls int
+//@ ghost latestNil bool
+//@ ghost latestFailed bool
+//@ ghost needsSchema bool
+//@ ghost validateFailed bool
+//@ ghost validateCalls int
 
 //@ function hasBal(b map[string]map[string]*big.Int, a string, x string) bool = has(b, a) && has(b[a], x)
 //@ function balOf(b map[string]map[string]*big.Int, a string, x string) int = val(b[a][x])
@@ -96,9 +105,25 @@ package ledger
 //@   ensures writes == store(old(writes), s, old(writes)[s] + 1)
 
 //@ assumed func (s Store) FindSchema(ctx context.Context, version string) (r *ledger.Schema, err error)
+//@   modifies findSchemaCalls, findSchemaNotFound, findSchemaFailed
+//@   ensures findSchemaCalls == old(findSchemaCalls) + 1 && findSchemaFailed == (err != nil) && findSchemaNotFound == isErr(err, ErrNotFound)
 //@   ensures err == nil ==> r != nil
 
 //@ assumed func (s Store) FindLatestSchemaVersion(ctx context.Context) (r *string, err error)
+//@   modifies latestCalls, latestNil, latestFailed
+//@   ensures latestCalls == old(latestCalls) + 1 && latestFailed == (err != nil) && latestNil == (r == nil)
+
+//@ assumed func (p ledger.LogPayload) NeedsSchema() (r bool)
+//@   modifies needsSchema
+//@   ensures needsSchema == r
+
+//@ assumed func (l ledger.Log) ValidateWithSchema(schema ledger.Schema) (err error)
+//@   modifies validateFailed, validateCalls
+//@   ensures validateCalls == old(validateCalls) + 1 && validateFailed == (err != nil)
+
+//@ declare idemHash(input any) string
+//@ assumed func ledger.ComputeIdempotencyHash(inputs any) (r string)
+//@   ensures r == idemHash(inputs)
 
 //@ assumed func (s Store) ReadLogWithIdempotencyKey(ctx context.Context, ik string) (r *ledger.Log, err error)
 //@   ensures err == nil ==> r != nil && r.IdempotencyKey == ik
@@ -120,7 +145,16 @@ package ledger
 //@ func (lp *logProcessor[INPUT, OUTPUT]) runLog(ctx context.Context, store Store, parameters Parameters[INPUT], fn func(ctx context.Context, sqlTX Store, schema *ledger.Schema, parameters Parameters[INPUT]) (*OUTPUT, error)) (log *ledger.Log, output *OUTPUT, err error)
 //@   property C07 C08 C13 C29 C31
 //@   requires !closed[store]
-//@   modifies writes, logs, fnRuns
+//@   modifies writes, logs, fnRuns, findSchemaCalls, findSchemaNotFound, findSchemaFailed, latestCalls, latestNil, latestFailed, needsSchema, validateFailed, validateCalls
+//@   ensures parameters.SchemaVersion != "" ==> findSchemaCalls == old(findSchemaCalls) + 1
+//@   ensures parameters.SchemaVersion != "" && findSchemaFailed ==> err != nil && fnRuns == old(fnRuns) && logs == old(logs)
+//@   ensures parameters.SchemaVersion != "" && findSchemaNotFound && !latestFailed ==> isErr(err, ErrSchemaNotFound)
+//@   ensures parameters.SchemaVersion == "" ==> findSchemaCalls == old(findSchemaCalls)
+//@   ensures parameters.SchemaVersion == "" && needsSchema && latestCalls == old(latestCalls) + 1 && !latestFailed && !latestNil && lp.schemaEnforcementMode == "strict" ==> isErr(err, ErrSchemaNotSpecified) && fnRuns == old(fnRuns) && logs == old(logs)
+//@   ensures parameters.SchemaVersion == "" && needsSchema ==> latestCalls == old(latestCalls) + 1
+//@   ensures validateCalls == old(validateCalls) + 1 && validateFailed && lp.schemaEnforcementMode == "strict" ==> err != nil && logs == old(logs)
+//@   ensures err == nil && parameters.SchemaVersion != "" ==> validateCalls == old(validateCalls) + 1
+//@   ensures err == nil ==> log.IdempotencyHash == idemHash(boxany(parameters.Input))
 //@   ensures forall h Store :: {writes[h]} {old(writes)[h]} h != store ==> writes[h] == old(writes)[h]
 //@   ensures forall h Store :: {logs[h]} {old(logs)[h]} h != store ==> logs[h] == old(logs)[h]
 //@   ensures forall h Store :: {fnRuns[h]} {old(fnRuns)[h]} h != store ==> fnRuns[h] == old(fnRuns)[h]
@@ -138,7 +172,7 @@ package ledger
 //@ func (lp *logProcessor[INPUT, OUTPUT]) runTx(ctx context.Context, store Store, parameters Parameters[INPUT], fn func(ctx context.Context, sqlTX Store, schema *ledger.Schema, parameters Parameters[INPUT]) (*OUTPUT, error)) (log *ledger.Log, output *OUTPUT, err error)
 //@   property C07 C08 C13 C31
 //@   requires allocated[store] && !closed[store]
-//@   modifies allocated, open, closed, nBegin, nClosed, nCommit, committedLogs, committedFnRuns, writes, logs, fnRuns
+//@   modifies allocated, open, closed, nBegin, nClosed, nCommit, committedLogs, committedFnRuns, writes, logs, fnRuns, findSchemaCalls, findSchemaNotFound, findSchemaFailed, latestCalls, latestNil, latestFailed, needsSchema, validateFailed, validateCalls
 //@   ensures nBegin - old(nBegin) == nClosed - old(nClosed)
 //@   ensures forall h Store :: {writes[h]} {old(writes)[h]} old(allocated)[h] ==> writes[h] == old(writes)[h]
 //@   ensures forall h Store :: {closed[h]} {old(closed)[h]} old(allocated)[h] ==> closed[h] == old(closed)[h]
@@ -156,7 +190,7 @@ package ledger
 //@ func (lp *logProcessor[INPUT, OUTPUT]) forgeLogRetry(ctx context.Context, store Store, parameters Parameters[INPUT], fn func(ctx context.Context, store Store, schema *ledger.Schema, parameters Parameters[INPUT]) (*OUTPUT, error)) (log *ledger.Log, output *OUTPUT, hit bool, err error)
 //@   property C07 C08 C13 C31
 //@   requires allocated[store] && !closed[store]
-//@   modifies allocated, open, closed, nBegin, nClosed, nCommit, committedLogs, committedFnRuns, writes, logs, fnRuns
+//@   modifies allocated, open, closed, nBegin, nClosed, nCommit, committedLogs, committedFnRuns, writes, logs, fnRuns, findSchemaCalls, findSchemaNotFound, findSchemaFailed, latestCalls, latestNil, latestFailed, needsSchema, validateFailed, validateCalls
 //@   ensures nBegin - old(nBegin) == nClosed - old(nClosed)
 //@   ensures forall h Store :: {writes[h]} {old(writes)[h]} old(allocated)[h] ==> writes[h] == old(writes)[h]
 //@   ensures forall h Store :: {closed[h]} {old(closed)[h]} old(allocated)[h] ==> closed[h] == old(closed)[h]
@@ -183,7 +217,7 @@ package ledger
 //@ func (lp *logProcessor[INPUT, OUTPUT]) forgeLog(ctx context.Context, store Store, parameters Parameters[INPUT], fn func(ctx context.Context, store Store, schema *ledger.Schema, parameters Parameters[INPUT]) (*OUTPUT, error)) (log *ledger.Log, output *OUTPUT, hit bool, err error)
 //@   property C07 C08 C13 C31
 //@   requires allocated[store] && !closed[store]
-//@   modifies allocated, open, closed, nBegin, nClosed, nCommit, committedLogs, committedFnRuns, writes, logs, fnRuns
+//@   modifies allocated, open, closed, nBegin, nClosed, nCommit, committedLogs, committedFnRuns, writes, logs, fnRuns, findSchemaCalls, findSchemaNotFound, findSchemaFailed, latestCalls, latestNil, latestFailed, needsSchema, validateFailed, validateCalls
 //@   ensures nBegin - old(nBegin) == nClosed - old(nClosed)
 //@   ensures forall h Store :: {writes[h]} {old(writes)[h]} old(allocated)[h] ==> writes[h] == old(writes)[h]
 //@   ensures forall h Store :: {closed[h]} {old(closed)[h]} old(allocated)[h] ==> closed[h] == old(closed)[h]
